@@ -85,13 +85,13 @@ pub fn profile(name: &str) -> Profile {
         run_bias: 1,
     };
     match name {
-        "C01" => Profile { name: "C01", w_token: 8, reuse_bias: 4, kinds: [4, 3, 3, 4, 1, 0, 0, 5, 0], w_cause: 10, err_returns: true, ..base },
-        "C02" => Profile { name: "C02", w_cause: 12, max_sources: 8, kinds: [3, 3, 2, 6, 0, 0, 0, 0, 0], err_returns: true, ..base },
+        "C01" => Profile { name: "C01", w_token: 8, reuse_bias: 4, kinds: [4, 3, 3, 4, 1, 1, 0, 5, 0], w_cause: 10, err_returns: true, adapters: 2, ..base },
+        "C02" => Profile { name: "C02", w_cause: 12, max_sources: 8, kinds: [3, 3, 2, 6, 0, 1, 0, 0, 0], err_returns: true, adapters: 2, ..base },
         "C03" => Profile { name: "C03", kinds: [10, 0, 1, 2, 0, 0, 0, 0, 0], w_cause: 12, err_returns: true, ..base },
         "C04" => Profile { name: "C04", kinds: [1, 10, 1, 1, 0, 0, 0, 0, 0], w_cause: 14, err_returns: true, ..base },
         "C05" => Profile { name: "C05", kinds: [2, 1, 10, 1, 0, 0, 0, 0, 0], w_advance: 6, err_returns: true, ..base },
         "C06" => Profile { name: "C06", w_token: 9, w_insert: 7, reuse_bias: 3, ..base },
-        "C07" => Profile { name: "C07", w_token: 10, err_returns: true, ..base },
+        "C07" => Profile { name: "C07", w_token: 10, err_returns: true, kinds: [3, 3, 3, 3, 3, 1, 1, 0, 1], ..base },
         "C08" => Profile { name: "C08", kinds: [3, 3, 3, 3, 1, 3, 1, 0, 0], adapters: 3, script_len: (1, 5), script_ops: (1, 6), w_idle: 4, ..base },
         "C09" => Profile { name: "C09", kinds: [2, 1, 2, 8, 0, 0, 0, 0, 0], err_returns: true, script_len: (1, 5), ..base },
         "C10" => Profile { name: "C10", kinds: [1, 1, 1, 0, 0, 8, 5, 0, 0], w_cause: 14, ..base },
@@ -222,14 +222,7 @@ impl G {
             KindTag::Transient => match self.rng.below(10) {
                 0..=5 => Ret::Continue,
                 6 | 7 => Ret::Reregister,
-                8 => {
-                    // rare: a child Disable runs into known finding F10 and ends the run
-                    if self.rng.chance(1, 3) {
-                        Ret::Disable
-                    } else {
-                        Ret::Continue
-                    }
-                }
+                8 => Ret::Disable,
                 _ => Ret::Remove,
             },
             KindTag::Generic => match self.rng.below(10) {
@@ -407,7 +400,11 @@ impl G {
             KindTag::Lifecycle => {
                 let n = self.rng.below(6);
                 let synth: Vec<bool> = (0..n).map(|_| self.rng.chance(1, 3)).collect();
-                Op::InsertLifecycle { id, with_ping: self.rng.chance(2, 3), with_timer: None, synth, script }
+                let with_ping = self.rng.chance(2, 3);
+                let two = with_ping && self.rng.chance(1, 2);
+                let fail_step2 = two && (self.p.faults || self.p.scripted_faults) && self.rng.chance(1, 5);
+                let keep_rejected = self.rng.chance(2, 3);
+                Op::InsertLifecycle { id, with_ping, with_timer: None, synth, script, two, fail_step2, keep_rejected }
             }
             KindTag::Generic => {
                 let mut fd = match self.rng.below(6) {
